@@ -2,7 +2,8 @@
 """Round 2: confirm /tmp/seed2/Cxx/out/{b*,r*}.  breaking: suite keeps all stable_pass, demo fails with patch, passes without.
 refactoring: suite keeps all stable_pass and every demo known for the property (round 1 + round 2) still passes on the refactored tree."""
 import glob, json, os, shutil, subprocess, sys
-ROOT = "/tmp/seed2"
+ROOT = os.environ.get("SEED_ROOT", "/tmp/seed2")
+ROUND = int(os.environ.get("SEED_ROUND", "2"))
 ONLY = set(sys.argv[1:])
 for d in sorted(glob.glob(ROOT + "/C*/out/*")):
     pid = d.split("/")[3]; k = os.path.basename(d)
@@ -50,7 +51,7 @@ for d in sorted(glob.glob(ROOT + "/C*/out/*")):
         if kind == "breaking":
             shutil.copy(d + "/demo.py", dest + "/demo.py")
         meta = json.load(open(d + "/meta.json"))
-        meta["property"] = pid; meta["kind"] = kind; meta["round"] = 2
+        meta["property"] = pid; meta["kind"] = kind; meta["round"] = ROUND
         meta["confirmed"] = {"suite": suite.stdout.strip().splitlines()[0], "detail": detail,
                              "how": "git apply on a scratch worktree of /repo HEAD; /verif/tools/baseline.py <worktree>; demos run with PYTHONPATH=<worktree>"}
         json.dump(meta, open(dest + "/meta.json", "w"), indent=1)
